@@ -1287,3 +1287,54 @@ func ruleAllPolicyAlwaysGoesThroughTheCommitQueue(c *eng.Ctx) {
 	w := q.Find()
 	c.Check(w == nil && len(notAll) > 0, "an ALL-policy message always enters the commit queue", c.P.Pos(fn.Pos()), "every way out of processPendingMessage that skips commitQueue.Put crosses AckPolicy != ALL", "processPendingMessage can return without queueing a message whose policy may be ALL ("+w.String()+"): acknowledged on a fast path, its ack leaves before the high watermark moves — a FetchCursor right after a successful SetCursor reads the previous cursor and caches it")
 }
+
+// ruleEveryPartitionGetsItsOwnHandler (R17.x ownership): a LocalEncryptionHandler carries state that Seal fills in lazily (the
+// data key, and with it what the stored record looks like) and is used without a lock by the partition that owns it. The
+// constructor answers with an object made in the call; a handler shared through a registry is used by several message
+// loops at once.
+func ruleEveryPartitionGetsItsOwnHandler(c *eng.Ctx) {
+	fn := c.Fn("server/encryption.NewLocalEncryptionHandler")
+	if fn == nil {
+		return
+	}
+	n := 0
+	for _, r := range eng.Returns(fn) {
+		rv := eng.RetVals(r)
+		if len(rv) != 2 || !eng.NilConst(rv[1]) {
+			continue
+		}
+		n++
+		ok := true
+		for _, s := range phiSources(rv[0]) {
+			if _, isAlloc := eng.Strip(s).(*ssa.Alloc); !isAlloc {
+				ok = false
+			}
+		}
+		c.Check(ok, "NewLocalEncryptionHandler answers with a handler made in the call", c.Pos(r), "&LocalEncryptionHandler{…} per call", "NewLocalEncryptionHandler can hand out a handler it did not just make (a shared one looked up by master key): the handler's lazily generated data key and its buffers are used without a lock by the message loop of every partition that got it — concurrent Seal calls race on the key, and a value can be stored under a wrapped key that does not open it")
+	}
+	if n == 0 {
+		c.Unresolved("a successful return of NewLocalEncryptionHandler")
+	}
+}
+
+// ruleActivityEventsArePublishedWithAFreshRequest (R18.x): apiServer.publishToStream fills in the request it is handed (the ack
+// inbox, when empty). publishActivityEvent therefore builds a new PublishRequest for every event: a request kept on the
+// manager carries the first event's ack inbox into every later publish, and an ack that arrives late for event k is taken
+// for the ack of event k+1 — which is then recorded as published although it never was.
+func ruleActivityEventsArePublishedWithAFreshRequest(c *eng.Ctx) {
+	fn := c.Fn("server.(*activityManager).publishActivityEvent")
+	if fn == nil {
+		return
+	}
+	pubs := eng.CallsIn(fn, "server.apiServer.publishInternal")
+	if len(pubs) == 0 {
+		c.Unresolved("the publishInternal call of publishActivityEvent")
+		return
+	}
+	for _, pc := range pubs {
+		args := eng.AllArgs(pc.Common())
+		req := eng.Strip(args[len(args)-1])
+		_, fresh := req.(*ssa.Alloc)
+		c.Check(fresh, "every activity event is published with a request of its own", c.Pos(pc.(ssa.Instruction)), "publishInternal(ctx, &client.PublishRequest{…}) built in the call", "publishActivityEvent hands publishInternal a request it did not build in this call ("+eng.Describe(req)+"): the publish path fills the request's ack inbox in when it is empty, so a kept request makes every event wait on the first event's inbox — a late ack for one event completes the publish of the next, whose index is then recorded although the event was never stored")
+	}
+}
